@@ -51,6 +51,12 @@ def general_case(case):
         if exp is None and src:
             exp = sec.get(src_kind)
         check(g.get(key) == exp, "general-vs-variant-section", lambda: "[general] %s = %r but the main variant section says %r" % (key, g.get(key), exp))
+    # the same object written again with other choices of main variant: each file follows ITS request only
+    uids = sorted(n["uid"] for n in desc["variants"])
+    for other in [uids[-1], None, uids[0], None][case.get("plan", 0) % 2:][:3]:
+        text_o = must("dump-valid-tree-again", tim.dump_text, obj, other)
+        d = diff(tim.expected_general(desc, other), must("stdlib-read", tim.read_ini, text_o).get("general"))
+        check(d is None, "general-depends-on-earlier-dump", lambda: "same object dumped again with main_variant=%r after main_variant=%r: %s" % (other, main, d))
     labels = tim.labels(desc) + (["explicit-main"] if main is not None else []) + (["float-timestamp"] if isinstance(desc["tree"]["build_timestamp"], float) else [])
     mp = [n for n in desc["variants"] if n["uid"] == g["variant"]][0]["paths"]
     labels.append("main-paths:" + "".join(k[0] if k in mp else "-" for k in ("packages", "repository", "source_packages", "source_repository")))
